@@ -55,30 +55,30 @@ type svcInfo struct {
 type maskSet uint
 
 const (
-	mUsage         maskSet = 1 << iota // usage rows: index of the row / zero-count rows (finding 14)
-	mCheckRefresh                      // health checks: ServiceName/ServiceTags re-copied from the service
-	mGatewayStamp                      // gateway-services rows: RaftIndex (and ServiceKind of wildcard rows) rebuilt from the config entry
-	mTopologyStamp                     // mesh-topology rows: stamps, references and left-over rows depend on the write order
-	mOrphanSecret                      // peering-secret-uuids: the secrets of a row that outlived its peering are recorded by the restore
-	mStaleKindName                     // kind-service-names: rows no registered instance backs any more are not rebuilt
-	mWildcardUnbacked                  // gateway-services / mesh-topology: which names a wildcard gateway maps depends on the write order
-	mStaleDestName                     // kind-service-names: a "destination" row stays when service-defaults is rewritten without a Destination
-	mStaleHash                         // config entries: the stored Hash predates a status write; the restore recomputes it
-	mUnheldUUID                        // peering-secret-uuids: an id no secrets row holds any more is not rebuilt
-	mNodeSpelling                      // services: the row keeps the node name as spelled by its own registration; the restore uses the node row's
-	mNameSpelling                      // kind-service-names / usage: letter-case variants of one service name collapse by write order
-	mAll           = mUsage | mCheckRefresh | mGatewayStamp | mTopologyStamp | mOrphanSecret | mStaleKindName | mWildcardUnbacked | mStaleDestName | mStaleHash | mUnheldUUID | mNodeSpelling | mNameSpelling
+	mUsage            maskSet = 1 << iota // usage rows: index of the row / zero-count rows (finding 14)
+	mCheckRefresh                         // health checks: ServiceName/ServiceTags re-copied from the service
+	mGatewayStamp                         // gateway-services rows: RaftIndex (and ServiceKind of wildcard rows) rebuilt from the config entry
+	mTopologyStamp                        // mesh-topology rows: stamps, references and left-over rows depend on the write order
+	mOrphanSecret                         // peering-secret-uuids: the secrets of a row that outlived its peering are recorded by the restore
+	mStaleKindName                        // kind-service-names: rows no registered instance backs any more are not rebuilt
+	mWildcardUnbacked                     // gateway-services / mesh-topology: which names a wildcard gateway maps depends on the write order
+	mStaleDestName                        // kind-service-names: a "destination" row stays when service-defaults is rewritten without a Destination
+	mStaleHash                            // config entries: the stored Hash predates a status write; the restore recomputes it
+	mUnheldUUID                           // peering-secret-uuids: an id no secrets row holds any more is not rebuilt
+	mNodeSpelling                         // services: the row keeps the node name as spelled by its own registration; the restore uses the node row's
+	mNameSpelling                         // kind-service-names / usage: letter-case variants of one service name collapse by write order
+	mAll              = mUsage | mCheckRefresh | mGatewayStamp | mTopologyStamp | mOrphanSecret | mStaleKindName | mWildcardUnbacked | mStaleDestName | mStaleHash | mUnheldUUID | mNodeSpelling | mNameSpelling
 )
 
 var maskList = []maskSet{mUsage, mCheckRefresh, mTopologyStamp, mGatewayStamp, mOrphanSecret, mUnheldUUID, mStaleKindName, mStaleDestName, mWildcardUnbacked, mStaleHash, mNodeSpelling, mNameSpelling}
 
 var maskKind = map[maskSet]string{
-	mUsage:         "usage-row-index-after-restore",
-	mCheckRefresh:  "check-service-fields-refreshed-by-restore",
-	mGatewayStamp:  "gateway-services-rows-restamped-by-restore",
-	mTopologyStamp: "mesh-topology-rows-depend-on-write-order",
-	mOrphanSecret:  "orphan-peering-secret-uuid-added-by-restore",
-	mStaleKindName: "stale-kind-service-name-dropped-by-restore",
+	mUsage:            "usage-row-index-after-restore",
+	mCheckRefresh:     "check-service-fields-refreshed-by-restore",
+	mGatewayStamp:     "gateway-services-rows-restamped-by-restore",
+	mTopologyStamp:    "mesh-topology-rows-depend-on-write-order",
+	mOrphanSecret:     "orphan-peering-secret-uuid-added-by-restore",
+	mStaleKindName:    "stale-kind-service-name-dropped-by-restore",
 	mWildcardUnbacked: "wildcard-gateway-mappings-depend-on-write-order",
 	mStaleDestName:    "stale-destination-kind-name-dropped-by-restore",
 	mStaleHash:        "config-entry-hash-recomputed-by-restore",
@@ -96,6 +96,10 @@ type canonCtx struct {
 	respelled map[string]bool   // "node\x00peer" (lower case) of nodes with a service row spelled otherwise (mNodeSpelling)
 	nodes     map[string]string // "node\x00peer" (lower case) -> the node row's spelling, in the store the value came from
 	variants  map[string]bool   // lower-cased service names written in several letter-case spellings (mNameSpelling)
+	// after a suffix: the checks that were stale at the cut ("node\x00check\x00peer", lower case).  A later
+	// registration that repeats such a check rewrites it on the donor (its copied fields differ) and is
+	// a no-op on the restored server (they were refreshed), so its ModifyIndex is not compared.
+	staleChecks map[string]bool
 }
 
 var (
@@ -231,7 +235,18 @@ func (c *canonCtx) walk(v reflect.Value, sb *strings.Builder, depth int, skip []
 				}
 			}
 		}
+		staleStamp := false
+		if c.staleChecks != nil && c.masks&mCheckRefresh != 0 && t == hcType {
+			k := strings.ToLower(v.FieldByName("Node").String() + "\x00" + v.FieldByName("CheckID").String() + "\x00" + v.FieldByName("PeerName").String())
+			if c.staleChecks[k] {
+				staleStamp = true
+				skip = append(append([]string{}, skip...), "RaftIndex")
+			}
+		}
 		sb.WriteString("{")
+		if staleStamp {
+			sb.WriteString("CreateIndex:" + strconv.FormatUint(v.FieldByName("CreateIndex").Uint(), 10) + ",")
+		}
 		first := true
 		for i := 0; i < t.NumField(); i++ {
 			f := t.Field(i)
